@@ -3070,6 +3070,8 @@ REF_FCN static REF_STATUS ref_part_scalar_solb(REF_NODE ref_node, REF_INT *ldim,
   ref_malloc_init(data, (*ldim) * chunk, REF_DBL, -1.0);
 
   nnode_read = 0;
+  /* a section without fields has no data to distribute, whatever it declares */
+  if (0 == (*ldim)) nnode_read = nnode;
   while (nnode_read < nnode) {
     section_size = MIN(chunk, (REF_INT)(nnode - nnode_read));
     if (ref_mpi_once(ref_node_mpi(ref_node))) {
